@@ -80,6 +80,17 @@ def gen(rng, tier):
         spec = {"op": "plane-group", "stream": stream, "plane": ps, "k": k, "single": single,
                 "ptseed": rng.randrange(1 << 30)}
         yield spec
+    # descriptions that describe no plane (zero / NaN normal, collinear or coincident points, vector parallel to p2 - p1)
+    nan = float("nan")
+    for ps in ({"ctor": "pn", "ref": [1.0, 2.0, 3.0], "n": [0.0, 0.0, 0.0]},
+               {"ctor": "init", "ref": [1.0, 2.0, 3.0], "n": [nan, nan, nan]},
+               {"ctor": "init", "ref": [0.0, 0.0, 0.0], "n": [0.0, nan, 1.0]},
+               {"ctor": "points", "pts": [[0.0, 0.0, 0.0], [1.0, 1.0, 1.0], [2.0, 2.0, 2.0]]},
+               {"ctor": "points", "pts": [[1.0, 2.0, 3.0], [1.0, 2.0, 3.0], [1.0, 2.0, 3.0]]},
+               {"ctor": "points", "pts": [[1.0, 2.0, 3.0], [1.0, 2.0, 3.0], [0.0, 5.0, 1.0]]},
+               {"ctor": "pv", "p1": [0.0, 0.0, 0.0], "p2": [1.0, 2.0, 3.0], "v": [2.0, 4.0, 6.0]},
+               {"ctor": "pv", "p1": [1.0, 1.0, 1.0], "p2": [1.0, 1.0, 1.0], "v": [0.0, 0.0, 1.0]}):
+        yield {"op": "degenerate-ctor", "plane": ps}
     m = 60 if tier == "quick" else 2000
     for i in range(m):
         stream = "lattice" if i % 2 == 0 else "float"
@@ -135,9 +146,40 @@ def exact_sd(plane, p):
     return gens.fdot(gens.fsub(p, plane.reference_point), plane.normal)
 
 
+def make_degenerate(spec):
+    """a plane the constructors must not hand out: if one of them returns an object for a degenerate description, that
+    object is a Plane in the property's quantifier and its queries are judged like any other's"""
+    pts = np.array([[1.0, 2.0, 3.0], [-2.0, 0.5, 1.0], [0.0, 0.0, 0.0], [4.0, -1.0, -2.0]])
+
+    def impl():
+        plane = build_plane(spec["plane"])
+        n = np.asarray(plane.normal, dtype=np.float64)
+        sd = np.atleast_1d(plane.signed_distance(shcopy(pts)))
+        front = plane.points_in_front(shcopy(pts), ret_indices=True)
+        rest = plane.points_on_or_in_front(shcopy(pts), inverted=True, ret_indices=True)
+        return ["built", bool(np.all(np.isfinite(n))), bool(np.all(np.isfinite(sd))),
+                sorted(int(i) for i in np.concatenate([np.ravel(front), np.ravel(rest)]))]
+
+    def oracle(r):
+        if r[0] != "ok":
+            return []                       # refused: nothing to query (which class is raised is C13's subject)
+        _, n_ok, sd_ok, idx = r[1]
+        out = []
+        if not n_ok or not sd_ok:
+            out.append(("degenerate/non-finite-plane", "%s returned a plane whose normal / signed distances are not finite"
+                        % (spec["plane"],)))
+        if idx != list(range(len(pts))):
+            out.append(("partition/front-vs-rest", "on the plane built from %s, points_in_front and inverted "
+                        "points_on_or_in_front select %s of %d points" % (spec["plane"], idx, len(pts))))
+        return out
+    return Case(spec, None, impl, mode="rat", klass="degenerate/" + spec["plane"]["ctor"], trivial=True, oracle=oracle)
+
+
 def make(spec):
     if spec["op"] == "fn-group":
         return make_fn(spec)
+    if spec["op"] == "degenerate-ctor":
+        return make_degenerate(spec)
     plane = build_plane(spec["plane"])
     ref = np.array(plane.reference_point, dtype=np.float64)
     n = np.array(plane.normal, dtype=np.float64)
